@@ -2,7 +2,7 @@
 
 package os
 
-//@ scan[C12.realos.os] C12 extcalls os.*,os/exec.*,os/user.*,io/ioutil.*,path/filepath.Abs,path/filepath.Glob,path/filepath.Walk,path/filepath.WalkDir,path/filepath.EvalSymlinks,syscall.*,-os.Err*,-os.init,-syscall.init,-os/exec.init,-os/user.init:
+//@ scan[C12.realos.os] C12 extcalls github.com/risor-io/risor/os.Current,github.com/risor-io/risor/os.LookupUser,github.com/risor-io/risor/os.LookupUid,github.com/risor-io/risor/os.LookupGroup,github.com/risor-io/risor/os.LookupGid,github.com/risor-io/risor/os.NewSimpleOS,os.*,os/exec.*,os/user.*,io/ioutil.*,path/filepath.Abs,path/filepath.Glob,path/filepath.Walk,path/filepath.WalkDir,path/filepath.EvalSymlinks,syscall.*,-os.Err*,-os.init,-syscall.init,-os/exec.init,-os/user.init:
 
 // Fresh contexts would lose the OS: none is created in this package.
 //@ scan[C12.freshctx.os] C12 extcalls context.Background,context.TODO:
